@@ -9,7 +9,7 @@ from ..models.pad import pad_axis
 
 ID = "C11"
 NEEDS_SHIM = False
-BUDGET = {"quick": 4000, "thorough": 60000}
+BUDGET = {"quick": 4000, "thorough": 300000}
 MIN_EVALS = {"quick": 4000, "thorough": 60000}
 RULE = (
     "seeded random programs: a signature with 1-3 inputs, 1-2 outputs (possibly without core dims), 1-2 dummy axes per "
@@ -41,7 +41,7 @@ FILLS = [-3.25, 7, 2.5, -9]
 
 
 def gen_case(rng, i, tier):
-    layout = gen.random_layout(rng, nmin=2, nmax=4, p=0.5, at_least=2)
+    layout = gen.random_layout(rng, nmin=2, nmax=gen.deep(rng, tier, 4, 7), p=0.5, at_least=2)
     axn = [a["name"] for a in layout["axes"]]
     cm = gen.layout_coords(layout)
     nd = rng.randint(1, min(3, len(axn)))
